@@ -1,12 +1,11 @@
-"""C07 - sequence scores, random walks, the distribution wrapper and greedy CTC decoding.
-
-Bounded run-time contracts only so far (contracts/C07_rt.py); the deductive obligations of DESIGN.md
-par. 3 (C07.slp.tensor, C07.greedy.post) are added here when engine A's tensor layer reaches them.
-"""
-from contracts import C07_rt
+"""C07 - sequence scores, random walks and greedy CTC decoding match their definitions."""
+from contracts import C07_rt, C07_vc
+from vf.pyvc import api
 
 CHECKERS = dict(C07_rt.CHECKERS)
 
 
 def run(ctx):
+    api.run_vcs(ctx, C07_vc.vcs(ctx), {"C07.S.greedy_ctc": "real ctc_greedy_search source (is_probs): kept labels = frame-wise best labels within the valid length, blanks and repeats removed, in order; out_lens; score = product of frame maxima; all contents, lengths, blank indices"},
+                bounded="shapes (N,T,V) up to (2,3,2)/(1,3,3), both layouts, in_lens given/omitted; ALL probabilities, lengths and legal blank indices")
     C07_rt.run_bounded(ctx)
